@@ -83,6 +83,7 @@ func soleStore(v ssa.Value) ssa.Value {
 func checkC03(c *Ctx) {
 	c.Explanation = "Decides the structural core of histogram bucketing: (O1) the bucket search in RecordValue/RecordDuration is sort.Search(len(B), B[i].<bound of the right kind> >= sample) over the histogram's own bucket list; (O2/O3) exactly one Inc(1) on samples[index], dominated by the type guard with the matching histogram-type constant; (O4) a float search result is range-guarded (clamped) before it indexes samples, an integer search relies on the terminal MaxInt64 bound, and samples is made with len(buckets); (O5) bounds tile the line by construction: BucketPairs works on a sorted copy (strict <), open ends are the _singleBucket extremes, lower-bound helpers return the previous upper bound of the same list and kind, delivery/allocation sites pass (lowerBound(B,i), B[i].upper) for the same B, i and kind, bucket storage copies UpperBoundValue/UpperBoundDuration into the same-kind fields."
 	c.Explanation += " Added later: (O6 keeps-bounds, shared with C20) the bound table shared between a cache entry and its histograms is written only where it is allocated."
+	c.Explanation += " Added by round 8: (O5 pairs-from-specification) BucketPairs / newBucketStorage and their module callees touch no package-level variable written after initialisation."
 	c.NotDecided = []string{"sortedness as a value fact (sort.Sort trusted)", "sample counts for concrete inputs", "the full lower/upper chaining inside BucketPairs beyond the provenance classes checked"}
 
 	hist := c.named("", "histogram")
